@@ -41,6 +41,7 @@ func main() {
 		line = strings.TrimSpace(line)
 		if line != "" {
 			fmt.Fprintln(out, dispatch(strings.Split(line, " ")))
+			out.Flush() // a fatal runtime error must not lose the answers already computed
 		}
 		if err != nil {
 			break
